@@ -549,6 +549,20 @@ impl State {
                                         let c = Rc::clone(&set[0]);
                                         *next_idx = 1;
                                         *mark = self.trail.len();
+                                        // The predicate and the indirect
+                                        // specification of the disjunct
+                                        // itself apply whichever option
+                                        // matches: they are checked (as a
+                                        // check of type Any) once one has.
+                                        if chk.pred().is_some()
+                                            || chk.indirect() != IndirectSpec::Allowed
+                                        {
+                                            let own = TypeCheckRep::new_replace_typ(PDFType::Any, chk);
+                                            pending.push_front((
+                                                Rc::clone(&obj),
+                                                Rc::new(TypeCheck::Rep(own)),
+                                            ));
+                                        }
                                         pending.push_front((Rc::clone(&obj), tc));
                                         return Ok(Some((obj, c)))
                                     }
@@ -703,12 +717,19 @@ pub(super) fn normalize_check(typ: &Rc<TypeCheckRep>) -> Rc<TypeCheckRep> {
                 match o.as_ref() {
                     TypeCheck::Rep(r) => {
                         let flat = normalize_check(r);
-                        if let PDFType::Disjunct(nested) = flat.typ() {
-                            for n in nested {
-                                v.push(Rc::clone(n))
-                            }
-                        } else {
-                            v.push(Rc::new(TypeCheck::Rep(flat)))
+                        match flat.typ() {
+                            // a nested disjunct can only be dissolved if it
+                            // has no predicate or indirect specification of
+                            // its own.
+                            PDFType::Disjunct(nested)
+                                if flat.pred().is_none()
+                                    && flat.indirect() == IndirectSpec::Allowed =>
+                            {
+                                for n in nested {
+                                    v.push(Rc::clone(n))
+                                }
+                            },
+                            _ => v.push(Rc::new(TypeCheck::Rep(flat))),
                         }
                     },
                     TypeCheck::Named(_) => v.push(Rc::clone(o)),
